@@ -371,7 +371,14 @@ class Run:
                     return iter(states) if did % 2 else (s_ for s_ in states)
                 return states if len(states) != 1 else states[0]
 
-            async def __aexit__(s, et, ev, tb):
+            def __aexit__(s, et, ev, tb):
+                # a plain function handing back the coroutine: the CALL (the exit was asked for – `gather` built its list) and the
+                # first step of the coroutine (`dex`) are two events; "called, never started" is asyncio cancelling the wrapping
+                # task before its first step
+                run.ev(t, "dexcall", did)
+                return s._aexit(et, ev, tb)
+
+            async def _aexit(s, et, ev, tb):
                 run.ev(t, "dex", did, out_name(ev) if et is not None else "None")
                 if ex == "reraise" and ev is not None and not isinstance(ev, asyncio.CancelledError):
                     # (a re-raised CancelledError would come back from `gather` as a new object: asyncio's business)
